@@ -121,7 +121,7 @@ for ent, fns, props, what in (
      "send_chunk_or_dataless on an arbitrary session: payload <= fragsize, last flag only on the final fragment, fragment number field, one answer (+1 for a remembered duplicate), query consumed, SESSION_WF preserved"),
     ("h_downstream_ack", ["process_downstream_ack"], {"C15": "all", "C05": "safety"}, "process_downstream_ack: only a matching ack advances, by exactly the bytes sent, fragment numbers consecutive"),
     ("h_outpacket_queue", ["save_to_outpacketq", "get_from_outpacketq", "start_new_outpacket"], {"C15": "all", "C01": "all", "C05": "safety"}, "outpacket queue: FIFO of 4, new packets start at fragment 0 with the next sequence number")):
-    G(name="srv_" + ent[2:], harness="h_iodined.c", entry=ent, enforce=fns, defs=(["STUB_GETQ=1"] if ent == "h_send_chunk" else []), style="legacy", unwind=17, unwindset=["h_send_chunk.0:6", "h_send_chunk.1:5", "h_downstream_ack.0:6", "h_downstream_ack.1:5", "h_outpacket_queue.0:6", "h_outpacket_queue.1:5"], cbmc_flags=SRV_FLAGS, props=props, min_obl=10, timeout=900, cost=100, mem_gb=24, what=what, **SRV_SHRINK)
+    G(name="srv_" + ent[2:], harness="h_iodined.c", entry=ent, enforce=fns, defs=(["STUB_GETQ=1"] if ent == "h_send_chunk" else []), style="legacy", unwind=33, unwindset=["h_send_chunk.0:6", "h_send_chunk.1:5", "h_downstream_ack.0:6", "h_downstream_ack.1:5", "h_outpacket_queue.0:6", "h_outpacket_queue.1:5"], cbmc_flags=SRV_FLAGS, props=props, min_obl=10, timeout=900, cost=100, mem_gb=24, what=what, **SRV_SHRINK)
 
 for cmd in "ZY":
     G(name="srv_cmd_%s" % cmd, harness="h_iodined.c", entry="h_cmd_open", defs=["H_CMD='%s'" % cmd, "STUB_HELPERS=1"], enforce=["handle_null_request"],
